@@ -82,7 +82,7 @@ func init() {
 	reg("C11", propCfg{Fuzz: []string{"FuzzText"}, FuzzSeconds: 60})
 	reg("C12", propCfg{Fuzz: []string{"FuzzHistories"}, FuzzSeconds: 60})
 	reg("C15", propCfg{Fuzz: []string{"FuzzTputs"}, FuzzSeconds: 60})
-	reg("C20", propCfg{Fuzz: []string{"FuzzViewport", "FuzzBoxlayout"}, FuzzSeconds: 60})
+	reg("C20", propCfg{ReplayReps: 20, Fuzz: []string{"FuzzViewport", "FuzzBoxlayout"}, FuzzSeconds: 60})
 	reg("C05", propCfg{QuickShards: 4, ReplayReps: 20, OldTimers: true})
 	reg("C06", propCfg{QuickShards: 4, ReplayReps: 20})
 	reg("C10", propCfg{Race: true, QuickShards: 8, ReplayReps: 20})
